@@ -16,7 +16,8 @@ import (
 // ---------------------------------------------------------------------------
 // C09 (S) tcp processor stop: the real tcpProc with its real listener on the virtual network.
 //
-// alphabet  sessions 0 | 1 idle relayed connection | 2 connections ; backend well behaved (finishes when the
+// alphabet  sessions 0 | 1 idle relayed connection | 2 connections ; relays established | still connecting to the
+//           backend when Stop is called (the connects complete afterwards) ; backend well behaved (finishes when the
 //           proxy finishes) | unresponsive (never reads, writes or closes) ; action Stop | StopListen then Stop
 // bound     P, F, Sel (see Setup); the idle-timeout deadline is a virtual timer the harness lets fire, so
 //           "bounded time" = at most the configured idle timeout
@@ -28,6 +29,7 @@ func c09tcpBody() {
 	nconn := sched.Choose(sched.ClsInput, 3, "connections")
 	backend := []string{"well-behaved", "unresponsive"}[sched.Choose(sched.ClsInput, 2, "backend")]
 	action := []string{"stop", "drain+stop"}[sched.Choose(sched.ClsInput, 2, "action")]
+	connecting := nconn > 0 && sched.Choose(sched.ClsInput, 2, "stop while the connects to the backend are in progress") == 1
 	restore := proc.VerifSetListenFunc(vnet.Listen)
 	sched.OnReset(restore)
 	addr := "10.4.0.1:80"
@@ -56,6 +58,9 @@ func c09tcpBody() {
 	p := vfTCPProc(vfTCPConfig(service.LoadBalancePolicy_ROUND_ROBIN, 0), host.New(addr))
 	p.Start()
 	sched.WaitQuiescent()
+	if connecting {
+		vnet.HoldDials(true, addr) // the backend is slow to accept: the connects complete only after Stop was called
+	}
 	for i := 0; i < nconn; i++ {
 		c, err := vnet.DialConn(vfTCPAddr)
 		if err != nil {
@@ -74,8 +79,12 @@ func c09tcpBody() {
 		p.Stop()
 		stopped = true
 	})
+	if connecting {
+		sched.WaitQuiescent()
+		vnet.HoldDials(false)
+	}
 	sched.Settle(4) // lets the idle-timeout deadlines expire if Stop depends on them
-	tag := fmt.Sprintf("connections=%d backend=%s action=%s", nconn, backend, action)
+	tag := fmt.Sprintf("connections=%d backend=%s action=%s connecting=%v", nconn, backend, action, connecting)
 	_ = drained
 	if !stopped {
 		var who []string
